@@ -206,6 +206,12 @@ class FrameInterp:
                 return w
             return v
         if isinstance(e, ast.Subscript):
+            if isinstance(e.value, ast.Call) and call_name(e.value) in ("eye", "identity") and len(e.value.args) == 1 \
+                    and isinstance(e.value.args[0], ast.Constant) and e.value.args[0].value == 3 and not isinstance(e.slice, (ast.Slice, ast.Tuple)):
+                # a row of the 3x3 identity: the coordinate axis number <index> (same as zeros(3) with a 1 stored at <index>)
+                w = self._track(Vc(eq=False, fresh=True, origin=norm(e)))
+                w.lab_index = e.slice
+                return w
             base = self.ev(e.value)
             if isinstance(base, tuple) and base[0] == "seq" and isinstance(e.slice, ast.Constant):
                 return Pt("%s[%s]" % (norm(e.value), e.slice.value), e.slice.value)
